@@ -104,6 +104,8 @@ fn find_and_play_best_move(
             thread::sleep(Duration::from_millis(1));
         }
     }
+    #[cfg(walleye_verif)]
+    crate::verif::sched_point("answer");
     // answer and close the channel in one step (the search thread reports an improvement only
     // under this lock and only while the channel is open): whatever it reported is taken into
     // account, and nothing of this search can reach the GUI after the bestmove
